@@ -101,6 +101,9 @@ func runC12(p *Prog, r *Report) {
 	c12Unactionable(p, r)
 	c13PackageJSON(p, r)
 	c13Sections(p, r)
+	// an update filed under an origin the writer never looks up is reported but not written (shared with C13)
+	r.Rule("D5-origin-separator", "pom.xml: origin strings are split, joined and trimmed with the '@' separator")
+	c13Origins(p, r)
 }
 
 const (
@@ -219,6 +222,21 @@ func c12View(p *Prog, r *Report) {
 							okO = isOptsPtr(prm.Type())
 						}
 					}
+				}
+			}
+			// a filter predicate built on MatchVuln removes exactly what MatchVuln rejects: the closure
+			// answers !MatchVuln(…) and nothing else (an extra conjunct keeps or drops vulnerabilities
+			// in the patched analysis that the original analysis treats the other way)
+			if fnn.Parent() != nil && fnn.Signature.Results().Len() == 1 {
+				if bt, isB := fnn.Signature.Results().At(0).Type().Underlying().(*types.Basic); isB && bt.Kind() == types.Bool {
+					exact := true
+					for _, ret := range returnsOf(fnn) {
+						inner, flip := stripNot(retVal(ret, 0))
+						if inner != ssa.Value(c) || !flip {
+							exact = false
+						}
+					}
+					r.Check(exact, "D1-one-view", fnKey(fnn)+":filter-is-matchvuln", p.Pos(c.Pos()), "the predicate is !MatchVuln(*opts, v)", "a vulnerability list is filtered by something other than exactly !MatchVuln(options, v): the list the patched analysis keeps differs from what a fresh analysis with the same options would keep, so Fixed/Introduced and a re-run disagree")
 				}
 			}
 			r.Check(okO, "D1-one-view", fnKey(fnn)+":filter-options", p.Pos(c.Pos()), "MatchVuln(*opts, v) on the caller's options object", "a vulnerability list is filtered with a private copy of the options instead of the options object shared by the analysis and the strategies: the explicit-list / ignore-list expansion made for the original analysis is not applied to the patched one (or vice versa), so Fixed/Introduced are computed from differently filtered lists")
